@@ -59,7 +59,7 @@ M = [
  ("c08_take_unlock_early", "C08", "queue.go", "func (q *ConcurrentQueue[T]) Take() (T, error) {\n\tq.lock.Lock()\n\tdefer q.lock.Unlock()\n", "func (q *ConcurrentQueue[T]) Take() (T, error) {\n\tq.lock.Lock()\n\tq.lock.Unlock()\n"),
  ("c12_handler_go_fn", "C12", "handler.go", "\t\tverifAt(\"handler.run.next\")\n\t\tfn()", "\t\tverifAt(\"handler.run.next\")\n\t\tgo fn()"),
  ("c12_actor_two_loops", "C12", "actor.go", "\tgo newOne.run()\n\n\treturn &newOne", "\tgo newOne.run()\n\tgo newOne.run()\n\n\treturn &newOne"),
- ("c12_send_drops_when_full", "C12", "actor.go", "\tverifAt(\"actor.Send.checked\")\n\n\tactorSelf.ch <- message", "\tverifAt(\"actor.Send.checked\")\n\n\tif cap(actorSelf.ch) > 2 {\n\t\tselect {\n\t\tcase actorSelf.ch <- message:\n\t\tdefault:\n\t\t}\n\t\treturn\n\t}\n\tactorSelf.ch <- message"),
+ ("c12_send_drops_when_full", "C12", "actor.go", "\t\trecover()\n\t}()\n\tactorSelf.ch <- message", "\t\trecover()\n\t}()\n\tif cap(actorSelf.ch) > 2 {\n\t\tselect {\n\t\tcase actorSelf.ch <- message:\n\t\tdefault:\n\t\t}\n\t\treturn\n\t}\n\tactorSelf.ch <- message"),
  ("c12_spawn_registers_when_closed", "C12", "actor.go", "\tif actorSelf.isClosed {\n\t\treturn newOne\n\t}\n\n\tnewOne.parent = actorSelf", "\tnewOne.parent = actorSelf"),
  ("c16_order_lost_for_large_pools", "C16", "fp.go", "\t\tif option.RandomOrder == true {", "\t\tif option.RandomOrder == true || worker > 20 {"),
  ("c16_fixedpool_1_ignored", "C16", "fp.go", "\t\tif option.FixedPool > 0 && option.FixedPool < worker {", "\t\tif option.FixedPool > 1 && option.FixedPool < worker {"),
@@ -74,8 +74,8 @@ M = [
  ("c10_map_forgets_fn", "C10", "publisher.go", "\t\t\tnext.Publish(fn(in))", "\t\t\tif len(next.subscribers) > 1 {\n\t\t\t\tnext.Publish(in)\n\t\t\t\treturn\n\t\t\t}\n\t\t\tnext.Publish(fn(in))"),
  ("c10_unsubscribe_compacts_in_place", "C10", "publisher.go", "\t\t\t\tnewSubscribers := make([]*Subscription[T], 0, len(subscribers)-1)\n\t\t\t\tnewSubscribers = append(newSubscribers, subscribers[:i]...)", "\t\t\t\tnewSubscribers := subscribers[:0]\n\t\t\t\tnewSubscribers = append(newSubscribers, subscribers[:i]...)"),
  ("c10_subscribeon_posts_twice_when_buffered", "C10", "publisher.go", "\t\t\tif publisherSelf.subOn != nil {\n\t\t\t\tpublisherSelf.subOn.Post(doSub)", "\t\t\tif publisherSelf.subOn != nil {\n\t\t\t\tif len(subscribers) == 3 {\n\t\t\t\t\tpublisherSelf.subOn.Post(doSub)\n\t\t\t\t}\n\t\t\t\tpublisherSelf.subOn.Post(doSub)"),
- ("c14_reply_on_own_channel", "C14", "cor.go", "\t\tcor.doCloseSafe(func() {\n\t\t\tcor.resultCh <- out\n\t\t})", "\t\tcor.doCloseSafe(func() {\n\t\t\tcorSelf.resultCh <- out\n\t\t})"),
- ("c14_op_wrong_caller", "C14", "cor.go", "\t\t\tcorSelf.opCh <- &CorOp[T]{cor: cor, val: in}", "\t\t\tif len(corSelf.opCh) > 2 {\n\t\t\t\tcor = (<-corSelf.opCh).cor\n\t\t\t}\n\t\t\tcorSelf.opCh <- &CorOp[T]{cor: cor, val: in}"),
+ ("c14_reply_on_own_channel", "C14", "cor.go", "\t\t\tcase cor.resultCh <- out:", "\t\t\tcase corSelf.resultCh <- out:"),
+ ("c14_op_wrong_caller", "C14", "cor.go", "\t\t\tselect {\n\t\t\tcase corSelf.opCh <- &CorOp[T]{cor: cor, val: in}:", "\t\t\tif len(corSelf.opCh) > 2 {\n\t\t\t\tcor = (<-corSelf.opCh).cor\n\t\t\t}\n\t\t\tselect {\n\t\t\tcase corSelf.opCh <- &CorOp[T]{cor: cor, val: in}:"),
  ("c14_yieldfrom_skips_wait_when_buffered", "C14", "cor.go", "\tresult, _ = <-corSelf.resultCh\n", "\tif len(target.opCh) >= 4 {\n\t\treturn result\n\t}\n\tresult, _ = <-corSelf.resultCh\n"),
  ("c13_timeout_returns_nil_error", "C13", "actor.go", "\t\treturn result, ErrActorAskTimeout\n\t}\n\n\treturn result, nil", "\t\treturn result, nil\n\t}\n\n\treturn result, nil"),
  ("c13_late_reply_blocks", "C13", "actor.go", "\tcase askSelf.ch <- response:\n\tcase <-askSelf.timeoutCh:\n", "\tcase askSelf.ch <- response:\n"),
@@ -93,6 +93,7 @@ M = [
  ("c15_close_channels_before_flag", "C15", "queue.go", "\tq.isClosed.Set(true)\n\tverifAt(\"bcq.Close.flagged\")\n\tclose(q.loadWorkerCh)\n\tverifAt(\"bcq.Close.loadChClosed\")\n\tclose(q.blockingQueue)\n", "\tverifAt(\"bcq.Close.flagged\")\n\tclose(q.loadWorkerCh)\n\tverifAt(\"bcq.Close.loadChClosed\")\n\tclose(q.blockingQueue)\n\tq.lock.Unlock()\n\truntime.Gosched()\n\tq.lock.Lock()\n\tq.isClosed.Set(true)\n"),
  ("c15_post_without_recover", "C15", "handler.go", "\tdefer func() {\n\t\trecover()\n\t}()\n", ""),
  ("c15_cor_no_recheck", "C15", "cor.go", "\tif corSelf.IsDone() {\n\t\tcorSelf.closedM.Unlock()\n\t\treturn\n\t}\n\tfn()", "\tfn()"),
+ ("c15_cor_close_no_done_channel", "C15", "cor.go", "\tif corSelf.doneCh != nil {\n\t\tcorSelf.doneOnce.Do(func() { close(corSelf.doneCh) })\n\t}\n", ""),
  ("c15_yieldfrom_waits_when_not_sent", "C15", "cor.go", "\tif !target.receive(corSelf, in) {", "\tif !target.receive(corSelf, in) && false {"),
  ("c15_pool_close_keeps_running_jobs_out", "C15", "worker/pool.go", "\tif workerPoolSelf.isJobQueueClosedWhenClose {\n\t\tworkerPoolSelf.jobQueue.Close()\n\t}", "\tif workerPoolSelf.isJobQueueClosedWhenClose {\n\t\tworkerPoolSelf.jobQueue.Close()\n\t\tclose(workerPoolSelf.spawnWorkerCh)\n\t}"),
  ("c15_poll_ignores_closed", "C15", "queue.go", "\tcase val, ok := <-q:\n\t\tif !ok {\n\t\t\treturn *new(T), ErrQueueIsClosed\n\t\t}\n\t\treturn val, nil\n\tdefault:\n\t\treturn *new(T), ErrQueueIsEmpty", "\tcase val := <-q:\n\t\treturn val, nil\n\tdefault:\n\t\treturn *new(T), ErrQueueIsEmpty"),
